@@ -516,5 +516,97 @@ Qed.
 
 End Proofs.
 
+(* ------------------------------------------------------------------ fetchRound / EnsureBlock *)
+Section FetchRound.
+Variables Block Cert : Type.
+Variable blk_round : Block -> N.
+Variable cert_round : Cert -> N.
+Variable contents_ok : Block -> bool.
+Variable blk_digest : Block -> N.
+Variables cround cdigest : N.
+
+Notation fr_event := (@fr_event Block Cert).
+Notation fr_state := (@fr_state Block Cert).
+Notation FrStep := (fr_step blk_round cert_round contents_ok blk_digest cround cdigest).
+Notation FrRun := (fr_run blk_round cert_round contents_ok blk_digest cround cdigest).
+
+Definition fr_ev_ok (e : fr_event) : Prop :=
+  match e with
+  | FREnsure b => blk_round b = cround /\ blk_digest b = cdigest /\ contents_ok b = true
+  | _ => True
+  end.
+Fixpoint n_ensure (tr : list fr_event) : nat :=
+  match tr with
+  | [] => O
+  | FREnsure _ :: t => S (n_ensure t)
+  | _ :: t => n_ensure t
+  end.
+Definition fr_inv (st : fr_state) : Prop :=
+  Forall fr_ev_ok (fr_trace st) /\ (n_ensure (fr_trace st) <= 1)%nat /\
+  (n_ensure (fr_trace st) = 1%nat -> fr_p st = FRDone).
+
+Lemma process_pair : forall r rs b c,
+  process blk_round cert_round r rs = FPair b c -> blk_round b = r /\ cert_round c = r.
+Proof.
+  intros r rs b c H. unfold process in H. destruct rs as [| |b' c'|]; try discriminate.
+  destruct (negb (blk_round b' =? r)) eqn:E1; [discriminate|].
+  destruct (negb (cert_round c' =? r)) eqn:E2; [discriminate|].
+  inversion H; subst. apply negb_false_iff in E1, E2. apply N.eqb_eq in E1, E2. now split.
+Qed.
+
+Lemma fr_step_inv : forall st l st', fr_inv st -> FrStep st l = Some st' -> fr_inv st'.
+Proof.
+  intros st l st' (H1 & H2 & H3) H. unfold fr_step in H. destruct l as [i|].
+  - destruct (fr_p st) eqn:Hp; try discriminate.
+    + assert (H0 : n_ensure (fr_trace st) = 0%nat).
+      { destruct (n_ensure (fr_trace st)) as [|[|n]] eqn:E; [reflexivity | | lia]. specialize (H3 eq_refl). congruence. }
+      destruct (cround <=? fr_latest st).
+      { inversion H; subst st'; unfold fr_inv; cbn. repeat split; auto; try lia; try congruence. }
+      destruct (fri_peer i).
+      { inversion H; subst st'; unfold fr_inv; cbn. repeat split; auto; try lia; try congruence. }
+      destruct (fri_cancel i); inversion H; subst; unfold fr_inv; cbn; repeat split; auto; try lia; try congruence.
+    + assert (H0 : n_ensure (fr_trace st) = 0%nat).
+      { destruct (n_ensure (fr_trace st)) as [|[|n]] eqn:E; [reflexivity | | lia]. specialize (H3 eq_refl). congruence. }
+      destruct (fri_pre_has i).
+      { destruct (cround <=? fr_latest st); [|discriminate].
+        inversion H; subst st'; unfold fr_inv; cbn. repeat split; auto; try lia; try congruence. }
+      destruct (process blk_round cert_round cround (fri_resp i)) as [nb|b c|] eqn:Epr.
+      * inversion H; subst st'; unfold fr_inv; cbn. repeat split; auto; try lia; try congruence. constructor; [exact I | exact H1].
+      * destruct ((blk_digest b =? cdigest) && contents_ok b) eqn:Eok.
+        -- apply andb_prop in Eok. destruct Eok as [Ed Ec]. apply N.eqb_eq in Ed.
+           apply process_pair in Epr. destruct Epr as [Hr _].
+           inversion H; subst st'; unfold fr_inv; cbn. rewrite H0. repeat split; auto; try lia; try congruence.
+           constructor; [cbn; auto|]. constructor; [exact I | exact H1].
+        -- inversion H; subst st'; unfold fr_inv; cbn. repeat split; auto; try lia; try congruence. constructor; [exact I | exact H1].
+      * inversion H; subst st'; unfold fr_inv; cbn. repeat split; auto; try lia; try congruence. constructor; [exact I | exact H1].
+  - inversion H; subst st'; unfold fr_inv; cbn. repeat split; auto; try lia; try congruence.
+Qed.
+
+Lemma fr_run_inv : forall ls st st', fr_inv st -> FrRun st ls = Some st' -> fr_inv st'.
+Proof.
+  induction ls as [|l t IH]; intros st st' Hi H; cbn in H.
+  - inversion H; subst; exact Hi.
+  - destruct (FrStep st l) as [s1|] eqn:E; [|discriminate].
+    eapply IH; [|exact H]. eapply fr_step_inv; eauto.
+Qed.
+
+(* every block handed to EnsureBlock is for the certificate's round, has the digest the certificate
+   commits to and matches its own header; and there is at most one such call -- whatever peers answer *)
+Theorem fetch_round_ensures_matching : forall lat0 ls st,
+  FrRun (fr_init lat0) ls = Some st ->
+  (forall b, In (FREnsure b) (fr_trace st) ->
+             blk_round b = cround /\ blk_digest b = cdigest /\ contents_ok b = true) /\
+  (n_ensure (fr_trace st) <= 1)%nat.
+Proof.
+  intros lat0 ls st H.
+  assert (Hi : fr_inv st).
+  { eapply fr_run_inv; [|exact H]. unfold fr_inv; cbn. repeat split; auto; lia. }
+  destruct Hi as (H1 & H2 & _). split; [|exact H2].
+  intros b Hin. rewrite Forall_forall in H1. exact (H1 _ Hin).
+Qed.
+
+End FetchRound.
+
 Arguments chron_log {Block Cert}.
 Arguments log_of_event {Block Cert}.
+Arguments n_ensure {Block Cert}.
